@@ -24,7 +24,7 @@ func boundsOf(tier string) bounds {
 	all := []string{"same", "next", "prev", "fam2", "far"}
 	if tier == "thorough" {
 		return bounds{
-			One: classBounds{Slots: all, MaxWrites: 5, MaxGapOps: []int{0, 3, 3, 3, 3, 2}, FarWrites: 4, ReopenWrites: 3, OneFieldWrites: 3},
+			One: classBounds{Slots: all, MaxWrites: 5, MaxGapOps: []int{0, 3, 3, 3, 3, 1}, FarWrites: 4, ReopenWrites: 3, OneFieldWrites: 3},
 			Two: classBounds{Slots: all, MaxWrites: 4, MaxGapOps: []int{0, 3, 3, 3, 1}, FarWrites: 2, ReopenWrites: 3, OneFieldWrites: 2}}
 	}
 	return bounds{
